@@ -55,6 +55,13 @@ def run(ctx):
     ctx.spec_must_hold(s)
     states += s["distinct"]
     trans += s["states"]
+    # longer histories of few kinds: a request repeated (equal key) before the first has expired, followed until both deadlines are past
+    s2 = ctx.tlc("MCIcmpMuxGen", "MCIcmpMuxGen.repeat.cfg", name="MCIcmpMuxGen.repeat", workers=4, timeout=900, require_actions=("MCSend", "MCTick"))
+    ctx.spec_must_hold(s2)
+    states += s2["distinct"]
+    trans += s2["states"]
+    with open(s["out"], "a") as f:
+        f.write(open(s2["out"], errors="replace").read())
     trace = os.path.join(ctx.work, "mux.trace.ndjson")
     wire = os.path.join(ctx.work, "wire.trace.ndjson")
     r = ctx.harness("c11", ["--mode", "mux", "--vectors", s["out"], "--trace-out", trace, "--wire-out", wire], name="c11.mux")
